@@ -2,7 +2,7 @@ SPECIFICATION SSpec
 CONSTANTS
   Keys = {"k1", "k2"}
   Algs = {"ES256", "EdDSA", "PS256"}
-  ClaimIds = {"cA", "cB", "cBad"}
+  ClaimIds = {"cA", "cB", "cC", "cBad"}
   InvalidIds = {"cBad"}
   Depth = 30
 INVARIANT Emit
